@@ -27,8 +27,9 @@ ASSUMPTIONS = [
 ]
 
 
-def nak_capacity(maxpkt, idw, crc):
-    return (maxpkt - models.header_len(idw, 2) - 1 - 8 - (2 if crc else 0)) // 8
+def nak_capacity(maxpkt, idw, crc, large=False):
+    w = 16 if large else 8
+    return (maxpkt - models.header_len(idw, 2) - 1 - w - (2 if crc else 0)) // w
 
 
 def gen_cases(tier, seed):
@@ -71,7 +72,7 @@ def gen_cases(tier, seed):
                 script[a], script[b] = script[b], script[a]
         cases.append({"t": "rand", "n": n, "seg": seg, "tail": tail, "imm": rng.random() < 0.5, "cap": rng.choice([1, 1, 2, 3, 5, 13]), "crc": rng.random() < 0.3,
                       "idw": rng.choice([1, 2, 4]), "script": script, "policy": rng.choice(["full", "full", "partial", "twice", "late", "mixed", "none"]), "warmup": rng.random() < 0.3,
-                      "seed": seed * 1_000_003 + i})
+                      "seed": seed * 1_000_003 + i, "large": i % 5 == 3})
     return cases
 
 
@@ -80,15 +81,18 @@ def run_case(case):
     seg, n, tail = case["seg"], case["n"], case["tail"]
     size = n * seg + tail
     idw, crc = case["idw"], case["crc"]
-    maxpkt = models.nak_len(idw, 2, crc, case["cap"]) + (rng.randrange(0, 8) if case["t"] == "rand" else 0)
-    cap = nak_capacity(maxpkt, idw, crc)
+    large = bool(case.get("large"))  # the sender marks its PDUs with the large file flag: offsets and sizes are 64 bit wide
+    maxpkt = models.nak_len(idw, 2, crc, case["cap"], large) + (rng.randrange(0, 8) if case["t"] == "rand" else 0)
+    cap = nak_capacity(maxpkt, idw, crc, large)
     cfg = {"mode": "ack", "size": size, "seg": seg, "maxpkt": maxpkt, "imm_nak": case["imm"], "crc": crc, "src_idw": idw, "dst_idw": idw,
            "nak_limit": 4, "ack_limit": 3, "content": size % 5}
     viol, obs = [], {}
     with World(cfg) as w:
         D = w.D
         data = w.data
-        tc = pdugen.conf(1, 2, 0, idw=idw, seqw=2, mode="ack", crc=crc)
+        tc = pdugen.conf(1, 2, 0, idw=idw, seqw=2, mode="ack", crc=crc, large=large)
+        if large:
+            obs["runs_with_large_file_flag"] = 1
         md = pdugen.raw("MD", tc, {"size": size, "cks": "crc32", "src_name": w.src_path.as_posix(), "dst_name": w.dst_req_path.as_posix()})
         eof = pdugen.raw("EOF", tc, {"size": size, "cksum": models.checksum("crc32", data)})
 
@@ -366,7 +370,7 @@ def run_case(case):
         if finished is not None and finished[0] == "NAK_LIMIT_REACHED":
             obs["runs_ending_in_nak_limit"] = 1
         for v in viol:
-            v["case"] = {k: case.get(k) for k in ("n", "seg", "tail", "imm", "cap", "crc", "idw", "policy", "seed", "warmup")}
+            v["case"] = {k: case.get(k) for k in ("n", "seg", "tail", "imm", "cap", "crc", "idw", "policy", "seed", "warmup", "large")}
             v["script"] = case["script"][:30]
             v["max_packet_len"] = maxpkt
         sig = case if naks_judged else None
@@ -377,4 +381,4 @@ def run_case(case):
 
 
 REQUIRED = {"naks_judged": 1000, "deferred_sequences_judged": 500, "multi_pdu_sequences": 100, "reissued_sequences_judged": 50, "metadata_requests_judged": 100,
-            "segment_requests_judged": 1000, "completions_after_nothing_missing": 300, "immediate_naks": 100, "sequences_filling_last_pdu_exactly": 20, "runs_after_warmup_transaction": 100}
+            "segment_requests_judged": 1000, "completions_after_nothing_missing": 300, "immediate_naks": 100, "sequences_filling_last_pdu_exactly": 20, "runs_after_warmup_transaction": 100, "runs_with_large_file_flag": 100}
